@@ -1,3 +1,3 @@
 From Coq Require Import ExtrOcamlBasic ZArith NArith.
-From CA Require Import Model.Support Model.Lexer Model.Parser Model.Literal Model.Matcher Model.AsmAst Model.AsmParser.
-Extraction "../ocaml/gen/asmparser_model.ml" support_types parse_file parse_lines start_walker file_fuel string_contents.
+From CA Require Import Model.Support Model.Lexer Model.Parser Model.Literal Model.Matcher Model.AsmAst Model.AsmParser Model.AsmFields.
+Extraction "../ocaml/gen/asmparser_model.ml" support_types parse_file parse_lines start_walker file_fuel string_contents fparse_file.
